@@ -1,6 +1,6 @@
 (** push preserves [Inv] and refines the set of received bytes. *)
 From Coq Require Import List ZArith Lia Bool Permutation.
-From V Require Import Gen.Params Lib.Hex FrameSorter.Model FrameSorter.InvCheck FrameSorter.ProofsBase
+From V Require Import Gen.Params Lib.Hex FrameSorter.Model FrameSorter.InvCheck FrameSorter.Spec FrameSorter.ProofsBase
   FrameSorter.ProofsLoops FrameSorter.ProofsFind FrameSorter.ProofsPop FrameSorter.ProofsInv
   FrameSorter.ProofsReinsert FrameSorter.ProofsTail FrameSorter.ProofsTailCases FrameSorter.ProofsStart.
 Import ListNotations.
